@@ -1,8 +1,16 @@
-"""C06 direct comparison on the real code: implicit mode (partial eigenvectors, direct solver) vs the explicit
-computation in the complete eigenbasis.  Structured output as the other harnesses."""
+"""C06 (and the implicit part of C16) on the real code: implicit mode against the explicit computation in a complete eigenbasis.
+
+A case: a random sparse H_0 given through its eigen-decomposition (Hermitian: unitary Q; non-Hermitian: H_0 = S D S^-1 with left
+vectors S^-H), explicit subspaces made of *arbitrarily ordered* eigenvectors (degenerate partners need not be adjacent, energies
+need not ascend), the implicit block being the rest.  Solver: direct (default) — or, Hermitian mode, KPM with a requested
+accuracy, optionally with `auxiliary_vectors` (exact eigenvectors of the implicit part handed to the hybrid solver).
+Compared through order 3: H_tilde on all explicit blocks; U and U_inv on explicit-explicit blocks and on the explicit-implicit /
+implicit-explicit blocks, where the implicit carrier is the ambient space: U_impl[i, B] = U_expl[i, B] L_B^H and
+U_impl[B, i] = R_B U_expl[B, i] (the embedding of the explicit result in the complement of the explicit subspace).
+Tolerance 1e-8 relative for the direct solver, 300 x the requested accuracy for KPM."""
 import os, sys; sys.path.insert(0, os.path.dirname(os.path.abspath(__file__)))
 from common import case_rnd, skip
-import sys, json, random, time, warnings
+import json, warnings
 import numpy as np
 from scipy import sparse
 warnings.simplefilter("ignore")
@@ -10,60 +18,100 @@ from pymablock import block_diagonalize
 from pymablock.series import zero, one
 
 def gen(rnd):
-    N = rnd.randint(4, 8); cplx = rnd.random() < 0.5
+    N = rnd.randint(4, 8); cplx = rnd.random() < 0.5; herm = rnd.random() < 0.65
     rng = np.random.default_rng(rnd.randrange(2**31))
-    def herm():
-        m = rng.normal(size=(N, N)) + (1j * rng.normal(size=(N, N)) if cplx else 0)
-        return (m + m.conj().T) / 2
-    ev = np.sort(rng.choice(np.arange(-12, 13), size=N, replace=False)).astype(float) + rng.uniform(-0.2, 0.2, size=N)
-    if rnd.random() < 0.3: ev[1] = ev[0]                       # a degenerate explicit level
-    q, _ = np.linalg.qr(rng.normal(size=(N, N)) + (1j * rng.normal(size=(N, N)) if cplx else 0))
-    H0 = (q * ev) @ q.conj().T
-    dA = rnd.randint(2, N - 2); split = rnd.random() < 0.5 and dA >= 3
-    parts = [list(range(dA))] if not split else [list(range(2)), list(range(2, dA))]
+    def rand(shape): return rng.normal(size=shape) + (1j * rng.normal(size=shape) if cplx else 0)
+    ev = rng.choice(np.arange(-12, 13), size=N, replace=False).astype(float) + rng.uniform(-0.2, 0.2, size=N)
+    if not herm and cplx: ev = ev + 1j * rng.uniform(-1, 1, size=N)
+    dA = rnd.randint(2, N - 2)
+    # degeneracy patterns among the explicit levels (positions are shuffled afterwards)
+    pat = rnd.choice(["none", "pair", "two-pairs", "pair"])
+    if pat in ("pair", "two-pairs") and dA >= 2: ev[1] = ev[0]
+    if pat == "two-pairs" and dA >= 4: ev[3] = ev[2]
+    if herm:
+        Q, _ = np.linalg.qr(rand((N, N))); R = Q; L = Q
+    else:
+        # a well-conditioned non-unitary basis: S = Q1 diag(s) Q2^H with s in [0.6, 1.6]; L = S^-H = Q1 diag(1/s) Q2^H, so L^H R = 1
+        Q1, _ = np.linalg.qr(rand((N, N))); Q2, _ = np.linalg.qr(rand((N, N))); sv = rng.uniform(0.6, 1.6, size=N)
+        R = (Q1 * sv) @ Q2.conj().T; L = (Q1 / sv) @ Q2.conj().T
+    H0 = (R * ev) @ L.conj().T
+    order = list(range(dA)); rnd.shuffle(order)                                          # arbitrary order of the explicit vectors
+    split = rnd.random() < 0.5 and dA >= 3
+    if split:
+        cut = rnd.randint(1, dA - 1); parts = [order[:cut], order[cut:]]
+        # a degenerate level split over two coupled subspaces would be ill-posed: keep partners together
+        for a, b in ((0, 1), (2, 3)):
+            if a < dA and b < dA and ev[a] == ev[b]:
+                pa = 0 if a in parts[0] else 1
+                if b not in parts[pa]:
+                    parts[1 - pa].remove(b); parts[pa].append(b)
+        parts = [p for p in parts if p]
+    else:
+        parts = [order]
+    def pert(scale):
+        m = rand((N, N)); return scale * ((m + m.conj().T) / 2 if herm else m)
+    solver = "direct"
+    if herm and rnd.random() < 0.3: solver = rnd.choice(["kpm", "kpm-aux"])
     fd = tuple(b for b in range(len(parts)) if rnd.random() < 0.3)
-    return dict(N=N, cplx=cplx, H0=H0, H1=herm() * 0.5, H2=(herm() * 0.3 if rnd.random() < 0.4 else None), q=q, dA=dA, parts=parts, fd=fd)
+    return dict(N=N, cplx=cplx, herm=herm, ev=ev, R=R, L=L, H0=H0, H1=pert(0.5), H2=(pert(0.3) if rnd.random() < 0.4 else None), dA=dA, parts=parts,
+                fd=fd, solver=solver, pattern=pat)
 
 def dense(v, shape):
     if v is zero: return np.zeros(shape, dtype=complex)
+    if v is one: return np.eye(shape[0], dtype=complex)
     if hasattr(v, "toarray"): v = v.toarray()
     if hasattr(v, "matmat") and not isinstance(v, np.ndarray): v = v @ np.eye(v.shape[1])
-    return np.asarray(v, dtype=complex)
+    return np.asarray(v, dtype=complex).reshape(shape)
 
 def main(seed, ncases, driver, out):
-    rnd = random.Random(seed); failures = []; dist = {}; samples = []; evals = 0; distinct = 0; worst = 0.0
+    failures = []; dist = {}; samples = []; evals = 0; distinct = 0; worst = {"direct": 0.0, "kpm": 0.0}
     for c in range(ncases):
         if skip(c): continue
-        rnd = case_rnd(seed, c)
-        P = gen(rnd); q = P["q"]; N = P["N"]
+        rnd = case_rnd(seed, c); P = gen(rnd); N = P["N"]; R, L = P["R"], P["L"]; herm = P["herm"]
         H = {(0,): sparse.csr_array(P["H0"]), (1,): sparse.csr_array(P["H1"])}
         if P["H2"] is not None: H[(2,)] = sparse.csr_array(P["H2"])
-        vecsA = [q[:, p] for p in P["parts"]]; vecB = q[:, P["dA"]:]
-        key = f"N={N} explicit blocks={len(P['parts'])} complex={P['cplx']} fd={P['fd']}"; dist[key] = dist.get(key, 0) + 1
-        desc = {"N": N, "dA": P["dA"], "parts": P["parts"], "complex": P["cplx"], "fd": list(P["fd"]), "np_seed_case": c, "seed": seed}
-        if len(samples) < 2: samples.append(desc)
+        rest = list(range(P["dA"], N))
+        def basis(idx): return R[:, idx] if herm else (R[:, idx], L[:, idx])
+        vecsA = [basis(p) for p in P["parts"]]
+        key = f"{P['solver']} hermitian={herm} complex={P['cplx']} explicit={len(P['parts'])} degeneracy={P['pattern']} fd={bool(P['fd'])}"
+        dist[key] = dist.get(key, 0) + 1
+        desc = {"case": c, "seed": seed, "N": N, "dA": P["dA"], "parts": P["parts"], "complex": P["cplx"], "hermitian": herm, "fd": list(P["fd"]),
+                "solver": P["solver"], "explicit_energies": [complex(P["ev"][a]).real for a in sum(P["parts"], [])]}
+        if len(samples) < 3: samples.append(desc)
+        kw = {}; tol = 1e-8; kind = "direct"
+        if P["solver"] != "direct":
+            kind = "kpm"; acc = 1e-7; tol = 300 * acc
+            kw = dict(direct_solver=False, solver_options={"atol": acc})
+            if P["solver"] == "kpm-aux":
+                naux = rnd.randint(1, max(1, len(rest) - 1)); kw["solver_options"]["auxiliary_vectors"] = R[:, rest[:naux]]
         try:
-            Hi, Ui, _ = block_diagonalize(H, subspace_eigenvectors=vecsA, fully_diagonalize=P["fd"])
-            He, Ue, _ = block_diagonalize(H, subspace_eigenvectors=vecsA + [vecB], fully_diagonalize=P["fd"])
+            Hi, Ui, Vi = block_diagonalize(H, subspace_eigenvectors=vecsA, fully_diagonalize=P["fd"], hermitian=herm, **kw)
+            He, Ue, Ve = block_diagonalize(H, subspace_eigenvectors=vecsA + [basis(rest)], fully_diagonalize=P["fd"], hermitian=herm)
             nb = len(P["parts"]); bad = None
+            def cmp(what, a, b, n, blk):
+                nonlocal bad, evals
+                err = float(np.abs(a - b).max()) if a.size else 0.0; evals += 1; worst[kind] = max(worst[kind], err / (1 + float(np.abs(b).max()) if b.size else 1))
+                if not err <= tol * (1 + (float(np.abs(b).max()) if b.size else 0)): bad = bad or {"series": what, "block": blk, "order": n, "err": err}
             for n in range(0, 4):
                 for i in range(nb):
+                    si = len(P["parts"][i])
                     for j in range(nb):
-                        shape = (len(P["parts"][i]), len(P["parts"][j]))
-                        a = dense(Hi[i, j, n], shape); b = dense(He[i, j, n], shape); evals += 1
-                        err = np.abs(a - b).max() if a.size else 0.0; worst = max(worst, err)
-                        if err > 1e-8 * (1 + np.abs(b).max()): bad = bad or {"series": "H_tilde", "block": [i, j], "order": n, "err": float(err)}
-                    if n >= 1:                                 # explicit–implicit block of U: implicit carrier is dA x N
-                        shape_i = (len(P["parts"][i]), N); a = dense(Ui[i, nb, n], shape_i)
-                        b = dense(Ue[i, nb, n], (len(P["parts"][i]), N - P["dA"])) @ vecB.conj().T; evals += 1
-                        err = np.abs(a - b).max(); worst = max(worst, err)
-                        if err > 1e-8 * (1 + np.abs(b).max()): bad = bad or {"series": "U", "block": [i, nb], "order": n, "err": float(err)}
+                        sj = len(P["parts"][j])
+                        cmp("H_tilde", dense(Hi[i, j, n], (si, sj)), dense(He[i, j, n], (si, sj)), n, [i, j])
+                        cmp("U", dense(Ui[i, j, n], (si, sj)), dense(Ue[i, j, n], (si, sj)), n, [i, j])
+                        cmp("U_inv", dense(Vi[i, j, n], (si, sj)), dense(Ve[i, j, n], (si, sj)), n, [i, j])
+                    if n >= 1:     # blocks that involve the implicit subspace live in the ambient space
+                        LB = L[:, rest]; RB = R[:, rest]
+                        cmp("U", dense(Ui[i, nb, n], (si, N)), dense(Ue[i, nb, n], (si, len(rest))) @ LB.conj().T, n, [i, nb])
+                        cmp("U_inv", dense(Vi[i, nb, n], (si, N)), dense(Ve[i, nb, n], (si, len(rest))) @ LB.conj().T, n, [i, nb])
+                        cmp("U", dense(Ui[nb, i, n], (N, si)), RB @ dense(Ue[nb, i, n], (len(rest), si)), n, [nb, i])
+                        cmp("U_inv", dense(Vi[nb, i, n], (N, si)), RB @ dense(Ve[nb, i, n], (len(rest), si)), n, [nb, i])
             distinct += 1
             if bad: failures.append(dict(desc, kind="implicit-differs-from-explicit", **bad))
         except Exception as e:
             failures.append(dict(desc, kind="implementation-raises", error=type(e).__name__ + ": " + str(e)[:150]))
     json.dump({"evaluations": evals, "cases": ncases, "distinct_nontrivial": distinct, "failures": failures, "distribution": dist,
-               "samples": samples, "worst_abs_error": worst}, open(out, "w"))
+               "samples": samples, "worst_abs_error": max(worst.values()), "extra": {"worst_relative_error": worst}}, open(out, "w"), default=str)
 
 if __name__ == "__main__":
     main(int(sys.argv[1]), int(sys.argv[2]), sys.argv[3], sys.argv[4])
